@@ -40,6 +40,10 @@ def delete_fields(fields, resources=None, regex=True):
                     print('WARNING: Failed to match these fields to delete {!r}'.format(not_matched))
                 resource['schema']['fields'] = new_fields
                 new_field_names[resource['name']] = [f['name'] for f in new_fields]
+                # a primary key that lost one of its fields is no key any more
+                pk = resource['schema'].get('primaryKey')
+                if pk and not set([pk] if isinstance(pk, str) else pk) <= set(new_field_names[resource['name']]):
+                    del resource['schema']['primaryKey']
         yield package.pkg
 
         for resource in package:
